@@ -10,6 +10,7 @@ package main
 // yields the same method, target, host and header multiset.
 
 import (
+	"slices"
 	"bufio"
 	"fmt"
 	"io"
@@ -78,6 +79,18 @@ var h3wForcedTrailers = []http.Header{
 	{}, {"x-checksum": {"v"}, "X-Empty": nil},
 }
 var h3wForced, h3wForcedTrailer http.Header
+
+// handler maps that leave "header hygiene": the response writer does not validate what a handler puts
+// into the map, the peer's parser must; the writer therefore has to sanitise (as net/http's h1/h2 servers do)
+var h3wUnhygienic = []http.Header{
+	{"Content-Length": {""}}, {"Content-Length": {"5", "6"}}, {"Content-Length": {"5", "5"}}, {"content-length": {"abc"}},
+	{"Content-Length": {"5"}, "content-length": {"7"}}, {"CONTENT-LENGTH": {"9223372036854775808"}}, {"Content-Length": {"", "5"}},
+	{"X-A": {"a\nb"}}, {"X-A": {"ok", "bad\x00", "ok2"}}, {"X A": {"v"}}, {"x:y": {"v"}}, {"": {"v"}}, {"X-\xc3\xa9": {"v"}},
+	{"X-A": {"a\rb"}, "X-B": {"fine"}}, {"Te": {"a\nb"}},
+}
+var h3wUnhygienicTrailers = []http.Header{
+	{"X-T1": {"a\nb"}}, {"X-T1": {"ok", "bad\x00"}}, {"X T": {"v"}}, {"X-T1": {"\x7f"}, "X-Checksum": {"v"}}, {"x:t": {"v"}},
+}
 
 func genHeader(r *u.Rng, response bool) http.Header {
 	if h3wForced != nil {
@@ -391,6 +404,23 @@ func (h *h3run) writerResponse(r *u.Rng, i int) {
 			delete(hdr, "Content-Length") // keep Write from failing on a contradicting length
 		}
 	}
+	unhygienic := false
+	if k := i / 4; (k >= len(h3wForcedHeaders) && k < len(h3wForcedHeaders)+len(h3wUnhygienic)) || r.Chance(1, 6) {
+		unhygienic = true
+		var extra http.Header
+		if k >= len(h3wForcedHeaders) && k < len(h3wForcedHeaders)+len(h3wUnhygienic) {
+			extra = h3wUnhygienic[k-len(h3wForcedHeaders)]
+			hdr = http.Header{}
+		} else {
+			extra = h3wUnhygienic[r.Intn(len(h3wUnhygienic))]
+		}
+		body = nil // Content-Length games would make Write fail; the HEADERS frame is what is under test
+		for kk, vv := range extra {
+			if _, dup := h3wGet(hdr, strings.ToLower(kk)); !dup || strings.ToLower(kk) == "content-length" {
+				hdr[kk] = vv
+			}
+		}
+	}
 	trailerVals := http.Header{}
 	if r.Chance(1, 3) {
 		var names []string
@@ -483,6 +513,9 @@ func (h *h3run) writerResponse(r *u.Rng, i int) {
 	if err != nil {
 		h.dist["response:rejected"]++
 		viol := sectionViolations(fs, kResponse, 1<<20)
+		if cl, n := lastValue(fs, "content-length"); len(viol) == 0 && n > 0 && allDigits(cl) && !fitsInt63(cl) {
+			viol = append(viol, "content-length-too-big")
+		}
 		h.monfail("h3writers/response-rejected/"+causeOf(viol), fmt.Sprintf("the response writer emitted a section the parser rejects: %v", err), detail)
 	} else {
 		h.dist["response:accepted"]++
@@ -498,9 +531,32 @@ func (h *h3run) writerResponse(r *u.Rng, i int) {
 				}
 			}
 		}
-		// connection-specific fields and TE values other than "trailers" must not reach the wire (RFC 9114 4.2)
-		want := lowerKeys(hdr, func(k string) bool {
-			return k == "trailer" || k == "date" || declared[k] || strings.HasPrefix(k, "trailer:") || rfcConnSpecific[k]
+		// connection-specific fields and TE values other than "trailers" must not reach the wire (RFC 9114 4.2);
+		// names that are no tokens and values with forbidden bytes cannot be sent either (the peer must reject
+		// them): a writer that sanitises leaves exactly the rest
+		clean := http.Header{}
+		for k, vv := range hdr {
+			if !rfcToken(k) {
+				continue
+			}
+			for _, v := range vv {
+				if rfcValueOK(v) {
+					clean[k] = append(clean[k], v)
+				}
+			}
+		}
+		var clCandidates []string
+		for k, vv := range clean {
+			if strings.ToLower(k) == "content-length" {
+				for _, v := range vv {
+					if allDigits(v) && fitsInt63(v) {
+						clCandidates = append(clCandidates, v)
+					}
+				}
+			}
+		}
+		want := lowerKeys(clean, func(k string) bool {
+			return k == "trailer" || k == "date" || declared[k] || strings.HasPrefix(k, "trailer:") || rfcConnSpecific[k] || (unhygienic && k == "content-length")
 		})
 		if te, ok := want["te"]; ok {
 			var keep []string
@@ -519,6 +575,12 @@ func (h *h3run) writerResponse(r *u.Rng, i int) {
 			delete(want, "content-length") // documented: a malformed Content-Length is removed with a warning
 		}
 		gotm := lowerKeys(rsp.Header, func(k string) bool { return k == "date" })
+		if unhygienic { // Content-Length: at most one, and one of the numeric values the handler set
+			if cl := gotm["content-length"]; len(cl) > 1 || (len(cl) == 1 && !slices.Contains(clCandidates, cl[0])) {
+				h.monfail("h3writers/response-differs", fmt.Sprintf("Content-Length %q after the round trip, candidates %q", cl, clCandidates), detail)
+			}
+			delete(gotm, "content-length")
+		}
 		if len(body) > 0 && want["content-length"] == nil {
 			delete(gotm, "content-length") // added for small buffered bodies
 		}
@@ -595,6 +657,30 @@ func (h *h3run) writerTrailers(r *u.Rng, i int) {
 	}
 	if h3wForcedTrailer != nil {
 		tr = h3wForcedTrailer.Clone()
+	} else if k := i/4 - len(h3wForcedTrailers); (k >= 0 && k < len(h3wUnhygienicTrailers)) || r.Chance(1, 8) {
+		// no hygiene: values with forbidden bytes, names that are no tokens
+		var extra http.Header
+		if k >= 0 && k < len(h3wUnhygienicTrailers) {
+			extra, tr = h3wUnhygienicTrailers[k], http.Header{}
+		} else {
+			extra = h3wUnhygienicTrailers[r.Intn(len(h3wUnhygienicTrailers))]
+		}
+		for kk, vv := range extra {
+			tr[kk] = vv
+		}
+	}
+	// what a sanitising writer may send: token names that are valid trailers, values without forbidden bytes
+	sendable := http.Header{}
+	for k, vs := range tr {
+		lk := strings.ToLower(k)
+		if !rfcToken(k) || rfcNoTrailer[lk] || rfcConnSpecific[lk] || strings.HasPrefix(lk, "if-") {
+			continue
+		}
+		for _, v := range vs {
+			if rfcValueOK(v) {
+				sendable[k] = append(sendable[k], v)
+			}
+		}
 	}
 	detail := fmt.Sprintf("request trailers=%q", tr)
 	defer func() {
@@ -614,13 +700,7 @@ func (h *h3run) writerTrailers(r *u.Rng, i int) {
 		h.monfail("h3writers/trailers-undecodable", "writeTrailers emitted a HEADERS frame the peer cannot decode: "+err.Error(), detail)
 		return
 	}
-	wantWritten := false
-	for k, vs := range tr {
-		lk := strings.ToLower(k)
-		if !rfcNoTrailer[lk] && !rfcConnSpecific[lk] && !strings.HasPrefix(lk, "if-") && len(vs) > 0 {
-			wantWritten = true
-		}
-	}
+	wantWritten := len(sendable) > 0
 	if written != wantWritten {
 		h.monfail("h3writers/trailers-emit-decision", fmt.Sprintf("trailer section written=%v, want %v (an all-skipped trailer set must emit no section)", written, wantWritten), detail)
 	}
@@ -636,12 +716,7 @@ func (h *h3run) writerTrailers(r *u.Rng, i int) {
 		return
 	}
 	h.dist["trailers:accepted"]++
-	want := lowerKeys(tr, func(k string) bool { return rfcNoTrailer[k] || rfcConnSpecific[k] || strings.HasPrefix(k, "if-") })
-	for k, vs := range want {
-		if len(vs) == 0 { // announced, never filled in: nothing to send
-			delete(want, k)
-		}
-	}
+	want := lowerKeys(sendable, nil)
 	if !sameMultimap(lowerKeys(got, nil), want) {
 		h.monfail("h3writers/trailers-differ", fmt.Sprintf("trailers %q after the round trip, want %q", got, want), detail)
 	}
